@@ -489,8 +489,11 @@ func (c *Pipeline) SetBit(ctx context.Context, key string, offset int64, value i
 }
 
 func (c *Pipeline) BitCount(ctx context.Context, key string, bitCount *BitCount) *IntCmd {
+	n := c.Len()
 	ret := c.comp.BitCount(ctx, key, bitCount)
-	c.rets = append(c.rets, ret)
+	if c.Len() != n { // an invalid Unit is rejected without queuing a command: keep rets and cmds in step
+		c.rets = append(c.rets, ret)
+	}
 	return ret
 }
 
